@@ -840,6 +840,89 @@ def r03_8(rep: Report) -> None:
                      f'`{norm(st)[:80]}`: the reset saio is not written with the single entry [{sorted(pos_names)[0]}]', st)
 
 
+def r03_9(rep: Report) -> None:
+    """boxes that depend on another box (saio on senc / tfhd / moof through DEPENDS_UPON) are kept as raw bytes
+    until the box they depend on announces `change.<type>`; the announcement is what makes their offset fix-up
+    run.  Every assignment of a public field of an Mp4Atom must therefore announce the change - whether or not
+    the atom still holds a cached encoding (a lazily loaded atom holds none).  Must-analysis: on every path of
+    `Mp4Atom.__setattr__` that implies `<name> in self._fields` (after initialisation) `self.trigger_change()` is
+    reached, directly or through a method of the class that reaches it on all of its paths."""
+    from ..flow import each_exit
+    from ..pathcond import PathCond, entails as pc_entails
+    rid = 'R03.9'
+    tree = rep.repo.tree(MP4)
+    cls = need(find_class(tree, 'Mp4Atom'), 'Mp4Atom')
+    methods = {m.name: m for m in cls.body if isinstance(m, ast.FunctionDef)}
+    if 'trigger_change' not in methods or '__setattr__' not in methods:
+        raise AnalysisError('Mp4Atom.trigger_change / __setattr__ not found')
+    must: set[str] = {'trigger_change'}
+
+    def announces(st: ast.AST) -> bool:
+        return any(isinstance(c, ast.Call) and isinstance(c.func, ast.Attribute) and norm(c.func.value) == 'self'
+                   and c.func.attr in must for c in ast.walk(st))
+
+    def always(fn: ast.FunctionDef) -> bool:
+        ok = [True]
+        seen = [0]
+
+        def gen(st):
+            return ['tc'] if not isinstance(st, (ast.If, ast.While, ast.For, ast.Try, ast.With)) and announces(st) else []
+
+        def on_exit(kind, st, s):
+            if kind in ('return', 'fall'):
+                seen[0] += 1
+                if 'tc' not in s:
+                    ok[0] = False
+        Flow(MustFacts(gen), on_exit=on_exit).run(fn, frozenset())
+        return ok[0] and seen[0] > 0
+    for _ in range(4):
+        grew = False
+        for name, m in methods.items():
+            if name not in must and name not in ('__setattr__', '__delattr__', '__init__') and always(m):
+                must.add(name)
+                grew = True
+        if not grew:
+            break
+    sa = methods['__setattr__']
+    params = [a.arg for a in sa.args.args]
+    nm = params[1] if len(params) > 1 else 'name'
+    construct = f'{MP4}::Mp4Atom.__setattr__'
+    bad = []
+    n_paths = [0]
+
+    def gen2(st):
+        return ['tc'] if not isinstance(st, (ast.If, ast.While, ast.For, ast.Try, ast.With)) and announces(st) else []
+    from ..flow import Disjunctive
+
+    class D(PathCond):
+        pass
+    facts_at_exit: list = []
+
+    def upd(st, facts):
+        return facts | {'tc'} if gen2(st) else facts
+
+    def on_exit2(kind, st, state):
+        if kind not in ('return', 'fall'):
+            return
+        pc = state[0]
+        field_path = pc_entails(pc, ('atom', f'{nm} in self._fields')) is True
+        if field_path:
+            n_paths[0] += 1
+            if 'tc' not in state[2]:
+                bad.append((st, pc))
+    Flow(Disjunctive(PathCond(upd=upd), cap=128), on_exit=each_exit(on_exit2)).run(sa, [PathCond.initial()])
+    if n_paths[0] == 0:
+        raise AnalysisError(f'Mp4Atom.__setattr__: no path implies `{nm} in self._fields`')
+    if bad:
+        from ..pathcond import show as pc_show
+        rep.fail(rid, construct, 'a field assignment announces the change',
+                 f'a path that assigns a public field (path: {pc_show(bad[0][1])[:100]}) does not reach self.trigger_change() '
+                 f'(methods that always announce: {sorted(must)}): a lazily loaded atom has no cached encoding, so a guard on '
+                 '`_encoded` silences the announcement and the boxes that depend on it (saio) keep their stale bytes', bad[0][0] or sa)
+    else:
+        rep.ok(rid, construct, 'a field assignment announces the change', f'{n_paths[0]} path(s); always announcing: {sorted(must)}')
+
+
 def analyse(rep: Report) -> None:
     rep.explanation = (
         'Decides the structural protocol that makes offsets right after edits: reader/writer '
@@ -854,6 +937,7 @@ def analyse(rep: Report) -> None:
     rep.rule('R03.4', 'nothing writes to the encoded segment except the guarded corruption hook', floor=2)
     rep.rule('R03.5', 'box insertions reach the offset resets before encode', floor=6)
     rep.rule('R03.7', 'a re-based fragment resets stored offsets and leaves room for the fix-ups on every path', floor=2)
+    rep.rule('R03.9', 'every assignment of a public field of a box announces the change to the boxes that depend on it', floor=1)
     rep.rule('R03.8', 'a reset saio is written with one entry unless there is no senc sample', floor=2)
     rep.rule('R04.3', 'edit API invalidates cached encodings; two-pass encode order (shared with C04)',
              floor=10)
@@ -862,4 +946,5 @@ def analyse(rep: Report) -> None:
     r03_2_3(rep)
     r03_4_5(rep)
     r03_8(rep)
+    r03_9(rep)
     r04_3(rep)
